@@ -35,6 +35,8 @@ def run(ctx):
               "translated definitions evaluated on binary64 in Coq. tolerance lane: components_ of real fits of the "
               "17 estimators, query pairs = training rows, duplicates, far points, magnitudes 1e-100..1e100; "
               "implementation distance d vs exact rational squared distance q: |d^2-q| <= 1e-12*bound. "
+              "falsifier streams: the above plus rank-deficient real-valued L with points that differ (almost) only "
+              "along the null space of L (distances ~ 0). "
               "non-trivial = L != 0 and the two points differ; distinct = distinct (L, pairs).")
   ctx.trusted = ["Coq 8.16.1 kernel + vm_compute", "translator tools/translate_query.py + idiom table coq/Base/NP.v",
                  "binary64 rounding is not modelled in the theorems (real-number statement); finiteness is checked on the implementation only",
@@ -60,7 +62,9 @@ def run(ctx):
                           "model and implementation disagree on %s" % dict(
                               estimator=rec.get('estimator'), L=rec['L'].tolist(), pairs=rec['pts'].tolist()))
   # the property oracle itself, on the implementation (defence in depth; also the search for a replay)
-  for rec in recs[:(len(recs) if thorough or not ok else 150)] + trecs:
+  nrecs = mc.nullspace_cases(ctx.rng, 400 if thorough else 60)
+  ctx.count('falsifier_nullspace_records', len(nrecs))
+  for rec in recs[:(len(recs) if thorough or not ok else 150)] + trecs + nrecs:
     if falsify_rec(ctx, rec, 'metric_axioms'):
       break
 
